@@ -29,6 +29,7 @@ EXPLANATION = (
     "roles are direct calls in one body that neither spawns nor dispatches."
     " R01.8 count_input asks get_input_count for each counter kind exactly once per input (loop over KnownCounterKind::ALL), no path bypasses a kind. R01.9 an input counter is installed whatever the mode: Bencher::input_counter reaches set_input_counter exactly once on every path with the given closure, count_inputs_as reaches input_counter exactly once on every path.")
 EXPLANATION += (' R01.10 Bencher::with_inputs exists only on the initial configuration (typestate behind the unchecked cast of type-erased input counters).')
+EXPLANATION += (" R01.11 count_inputs_as installs, for each counter kind, a counter of that kind's own type.")
 NOT_DECIDED = ["behaviour of Vec::reserve_exact/set_len and slice iterators (trusted std)",
                "identity of values across the runtime reuse of the buffer between samples beyond 'each loop walks the same slice once'"]
 TRUSTED = ["std slice::Iter / Range<usize> yield each element exactly once", "MaybeUninit/ManuallyDrop never drop their content"]
